@@ -154,6 +154,7 @@ NonSharedEverywhere(l) ==
     \A m \in Nodes : NSMatch(m, t) # {} =>
         \E d \in l.dl : d.node = m /\ d.ns = {[c |-> s.c, f |-> s.f] : s \in NSMatch(m, t)}
 GroupOnce(l) == \A f \in GroupsAnywhere(TopicByName(l.t)) : Served(l, f) = 1
+GroupOnceFederationWide(l) == GroupOnce(l)        \* the name used in DESIGN.md
 RetainedEverywhere(l, R) ==
     l.kind # "plain" =>
        /\ l.fwd = Nodes \ {l.node}
